@@ -44,3 +44,25 @@ def hash_component(ctx, facts, p, why):
         p + "h": ("hash delta of every make arm = zobrist(post)^zobrist(pre) (shared with C05/H2)", ("hash",), "make/"),
         p + "o": ("occupancy sets follow the squares in make and unmake (shared with C05/H5)", ("occupancy", "unmodelled"), ""),
     })
+
+
+def uci_component(ctx, facts, p, why, thorough=False):
+    from . import ucirules, textrules
+    ctx.decided.append(
+        "%s* (component: UCI reader) %s: kind inference of uci::Move::into_move tabulated (double step, en passant only onto the square "
+        "behind a marked pawn, castling, promotion, simple), conversion tables, and the text round trip of every uci::Move "
+        "(= C10/X1, X4, X8 re-run)" % (p, why))
+    ucirules.conversions_rule(ctx, facts, p + "c")
+    ucirules.inference_rule(ctx, facts, p + "i", thorough)
+    textrules.uci_text_rule(ctx, facts, p + "t", thorough)
+
+
+def walker_component(ctx, facts, p, why):
+    from . import chainrules
+    ctx.decided.append(
+        "%s* (component: chain undo paths) %s: pop un-counts, clears the outcome and unmakes with the popped pair; the walker's "
+        "set_board_pos loops exit only at the target index, unmaking after the decrement and making before the increment, and next/prev "
+        "synchronise the board to the index of the move they return (= C13/L2, C17/W1, W2 re-run)" % (p, why))
+    chainrules.pop_rule(ctx, facts, p + "p")
+    chainrules.walker_sync_rule(ctx, facts, p + "s")
+    chainrules.walker_step_rule(ctx, facts, p + "w")
